@@ -137,6 +137,22 @@ impl<K: Clone + PartialEq + Eq + Hash + std::fmt::Debug + std::cmp::PartialOrd, 
         }
     }
 
+    /// Verification hook: every entry, committed or not, without touching
+    /// the lru state
+    #[cfg(qcow2_rs_verif)]
+    pub(crate) fn verif_entries(&self) -> Vec<(K, AsyncLruCacheEntry<V>)> {
+        let w = self.wmap.lock().unwrap();
+        let r = self.rmap.read().unwrap();
+        let mut v: Vec<_> = r.iter().map(|(k, e)| (k.clone(), Arc::clone(e))).collect();
+
+        for (k, e) in w.iter() {
+            if !r.contains_key(k) {
+                v.push((k.clone(), Arc::clone(e)));
+            }
+        }
+        v
+    }
+
     pub(crate) fn is_empty(&self) -> bool {
         let map = self.rmap.read().unwrap();
 
